@@ -79,7 +79,8 @@ class SymSim:
       UnrollSimPass.gen_tick_function = staticmethod(lambda funclist: o2([s.wrap(f) for f in funclist]))
       Mamba2020Pass.compile_meta_block = lambda self, blocks: o3(self, [s.wrap(b, keep=self) for b in blocks])
     try:
-      _groups()[s.group](top)
+      if callable(s.group): s.group(top)          # e.g. an already elaborated (replaced) design: apply the pass group only
+      else: _groups()[s.group](top)
     finally:
       SimpleTickPass.gen_tick_function, UnrollSimPass.gen_tick_function, Mamba2020Pass.compile_meta_block = saved
     s.collect_cells()
